@@ -1,5 +1,6 @@
 import RosuModel.Lemmas.PerfCalcOsu5
 import RosuModel.Lemmas.ErfSign
+import RosuModel.Lemmas.ErfFacts
 import RosuModel.Gen.PerfConsts
 
 /-!
@@ -467,12 +468,27 @@ theorem erf_inv_rows (r : List DLit × List DLit × Nat × ℚ) (hr : r ∈ erfI
   rw [e]
   exact div_pos hp hq
 
+
+/-- round 8: **the two numeric bounds on `exp`** the `erf_inv` rows need, proved (`exp 1` to nine digits from Mathlib;
+`exp(36) = (exp 1)^36`, `exp(0.265625) ≤ 1/(1 − 0.265625)`) -/
+theorem erf_inv_exp_bounds : Real.exp (1.265625 : ℝ) ≤ 4 ∧ (1e11 : ℝ) < Real.exp 36 :=
+  ⟨exp_small_le, exp_36_gt⟩
+
+/-- … hence where `x = sqrt(−ln q)` lands in `erf_inv_impl`'s third branch: `q < 0.25 ⇒ x ≥ 1.125` (row C's argument
+`x − 1.125 ≥ 0`, inside the interval of `erf_inv_rows`), and `q ≥ 10⁻¹¹` (i.e. `z ≤ 1 − 10⁻¹¹`) `⇒ x < 6`: only rows C
+and D are reached, rows E, F, G — G being the one whose sign fact is false for huge `x` — are not -/
+theorem erf_inv_argument_ranges (q : ℝ) (h0 : 0 < q) :
+    (q < 0.25 → (1.125 : ℝ) ≤ Real.sqrt (-Real.log q)) ∧ ((1e-11 : ℝ) ≤ q → Real.sqrt (-Real.log q) < 6) :=
+  ⟨sqrt_neg_log_ge q h0, sqrt_neg_log_lt q⟩
+
 /-- **What is left of `ErfFacts`** for the transcribed functions (`stdSpecial`), stated explicitly.  NOT proved:
 (1) the case analysis through the 13-way `if` chain of `erf_imp` that selects the row whose interval contains `z`
 (mechanical: each guard `z < next shift` together with the failed previous guard is the row's interval of `erf_imp_rows`;
-no analysis involved); (2) for `erf_inv`: the two numeric bounds on `ln` that place `x = sqrt(−ln q)` in the proved
-intervals — `q < 0.25 ⇒ x ≥ 1.125` (i.e. `exp(1.265625) ≤ 4`) and `q ≥ 10⁻¹¹ ⇒ x < 6` (i.e. `exp(36) > 10¹¹`) — and the
-same kind of case analysis.  Given these, `ErfFacts stdSpecial` follows from `erf_imp_small_branch`, `erf_imp_rows`,
+no analysis involved); (2) the same kind of case analysis through the 7-way chain of `erf_inv_impl` (round 8: the two numeric bounds it
+needs are theorems now, `erf_inv_exp_bounds` / `erf_inv_argument_ranges`).  No analytic fact is missing any more; the
+case analysis was attempted in round 8 and fails for a technical reason: `simp` / `split` exceed their step limit on
+the unfolded `erfImpNonneg` term (13 nested `if`s over the generated tables); it needs the row chain factored into a
+named function of `Model/PerfCalc.lean`.  Given these, `ErfFacts stdSpecial` follows from `erf_imp_small_branch`, `erf_imp_rows`,
 `erf_inv_rows` and the signs `exp > 0`, `sqrt ≥ 0`, `p·(p + 10) > 0`. -/
 def ErfFactsResidual : Prop :=
   (∀ x : ℝ, 0 < x → 0 < (stdSpecial (R := ℝ)).erf x) ∧
